@@ -92,40 +92,187 @@ Proof.
   split; intros H v Hv; apply (dep_okb_iff g am r0 plan _ v (represents_plan_outs g r0 plan)); apply H; exact Hv.
 Qed.
 
-(* ---- minimality oracle: everything it collects is needed ---- *)
-Definition wanted (g : graph) (r0 outs : list id) (v : id) : Prop :=
-  In v outs \/ exists p pn, needed g r0 outs p /\ get_op g p = Some pn /\ In v (deps g pn).
-
-Lemma needed_iter_sound g r0 outs : forall fuel work acc,
-  (forall v, In v work -> wanted g r0 outs v) -> (forall o, In o acc -> needed g r0 outs o) ->
-  forall o, In o (needed_iter g r0 fuel work acc) -> needed g r0 outs o.
+(* ---- minimality oracle: the rounds compute exactly the needed operators ---- *)
+Lemma sourced_iff g v o : sourced g v o = true <-> exists n, get_source g v = Some (o, n).
 Proof.
-  induction fuel as [|f IH]; intros work acc Hw Ha o Ho; cbn [needed_iter] in Ho; [apply Ha; exact Ho|].
-  destruct work as [|v w]; [apply Ha; exact Ho|].
-  assert (Hw' : forall x, In x w -> wanted g r0 outs x) by (intros x Hx; apply Hw; right; exact Hx).
-  destruct (resolved_contains g r0 v) eqn:Er; [eapply IH; eassumption|].
-  destruct (get_source g v) as [[so sn]|] eqn:Es; [|eapply IH; eassumption].
-  destruct (mem so acc) eqn:Em; [eapply IH; eassumption|].
-  assert (Hn : needed g r0 outs so).
-  { destruct (Hw v (or_introl eq_refl)) as [Hv|[p [pn [Hp [Hpn Hv]]]]].
+  unfold sourced. destruct (get_source g v) as [[o' n]|].
+  - rewrite N.eqb_eq. split; [intros ->; exists n; reflexivity|intros [n' H]; congruence].
+  - split; [discriminate|intros [n' H]; discriminate].
+Qed.
+
+Lemma wants_iff g r0 o vs :
+  wants g r0 o vs = true <->
+  exists v n, In v vs /\ resolved_contains g r0 v = false /\ get_source g v = Some (o, n).
+Proof.
+  unfold wants. rewrite existsb_exists. split.
+  - intros [v [Hv H]]. apply andb_true_iff in H. destruct H as [H1 H2].
+    apply negb_true_iff in H1. apply sourced_iff in H2. destruct H2 as [n Hn]. exists v, n. auto.
+  - intros [v [n [Hv [H1 H2]]]]. exists v. split; [exact Hv|].
+    rewrite H1. cbn [negb andb]. apply sourced_iff. exists n. exact H2.
+Qed.
+
+Section Needed.
+  Variable g : graph.
+  Variables r0 outs : list id.
+
+  Lemma wanted_byb_iff acc o :
+    wanted_byb g r0 outs acc o = true <->
+    (exists v n, In v outs /\ resolved_contains g r0 v = false /\ get_source g v = Some (o, n)) \/
+    (exists p pn d n, In p acc /\ get_op g p = Some pn /\ In d (deps g pn) /\
+                      resolved_contains g r0 d = false /\ get_source g d = Some (o, n)).
+  Proof.
+    unfold wanted_byb. rewrite orb_true_iff, wants_iff, existsb_exists. split.
+    - intros [H|[p [Hp H]]]; [left; exact H|right].
+      destruct (get_op g p) as [pn|] eqn:Epn; [|discriminate].
+      apply wants_iff in H. destruct H as [d [n [Hd [H1 H2]]]]. exists p, pn, d, n. auto.
+    - intros [H|[p [pn [d [n [Hp [Hpn [Hd [H1 H2]]]]]]]]]; [left; exact H|right].
+      exists p. split; [exact Hp|]. rewrite Hpn. apply wants_iff. exists d, n. auto.
+  Qed.
+
+  Lemma wanted_needed acc o :
+    (forall p, In p acc -> needed g r0 outs p) -> wanted_byb g r0 outs acc o = true -> needed g r0 outs o.
+  Proof.
+    intros Hacc H. apply wanted_byb_iff in H.
+    destruct H as [[v [n [Hv [H1 H2]]]]|[p [pn [d [n [Hp [Hpn [Hd [H1 H2]]]]]]]]].
     - eapply needed_out; eassumption.
-    - eapply needed_dep; eassumption. }
-  eapply IH; [| |exact Ho].
-  - intros x Hx. apply in_app_or in Hx. destruct Hx as [Hx|Hx]; [|apply Hw'; exact Hx].
-    right. exists so, sn. split; [exact Hn|]. split; [eapply get_source_op; exact Es|exact Hx].
-  - intros x [<-|Hx]; [exact Hn|apply Ha; exact Hx].
+    - eapply needed_dep; [apply Hacc; exact Hp|exact Hpn|exact Hd|exact H1|exact H2].
+  Qed.
+
+  Lemma wanted_is_op acc o : wanted_byb g r0 outs acc o = true -> In o (op_ids g).
+  Proof.
+    intros H. apply wanted_byb_iff in H.
+    destruct H as [[v [n [_ [_ H2]]]]|[p [pn [d [n [_ [_ [_ [_ H2]]]]]]]]];
+      eapply get_op_in_op_ids; eapply get_source_op; exact H2.
+  Qed.
+
+  Let round := needed_round g r0 outs.
+  Let sel (acc : list id) := filter (fun o => negb (mem o acc) && wanted_byb g r0 outs acc o) (nodup N.eq_dec (op_ids g)).
+
+  Lemma round_sound acc :
+    (forall p, In p acc -> needed g r0 outs p) -> forall o, In o (round acc) -> needed g r0 outs o.
+  Proof.
+    intros Hacc o Ho. unfold round, needed_round in Ho. apply in_app_or in Ho. destruct Ho as [Ho|Ho]; [apply Hacc; exact Ho|].
+    apply filter_In in Ho. destruct Ho as [_ Ho]. apply andb_true_iff in Ho. destruct Ho as [_ Ho].
+    eapply wanted_needed; eassumption.
+  Qed.
+
+  Lemma iter_round_sound : forall k acc,
+    (forall p, In p acc -> needed g r0 outs p) -> forall o, In o (iter k round acc) -> needed g r0 outs o.
+  Proof.
+    induction k as [|k IH]; intros acc Hacc o Ho; cbn [iter] in Ho; [apply Hacc; exact Ho|].
+    eapply IH; [|exact Ho]. apply round_sound. exact Hacc.
+  Qed.
+
+  Definition closed (acc : list id) : Prop := forall o, wanted_byb g r0 outs acc o = true -> In o acc.
+
+  Lemma closed_needed acc : closed acc -> forall o, needed g r0 outs o -> In o acc.
+  Proof.
+    intros Hc o Hn. induction Hn as [v o n Hv H1 H2|p pn d o n Hp IH Hpn Hd H1 H2].
+    - apply Hc. apply wanted_byb_iff. left. exists v, n. auto.
+    - apply Hc. apply wanted_byb_iff. right. exists p, pn, d, n. auto.
+  Qed.
+
+  Lemma sel_nil_closed acc : sel acc = [] -> closed acc.
+  Proof.
+    intros Hs o Hw. destruct (mem o acc) eqn:Em; [apply mem_In; exact Em|exfalso].
+    assert (Hin : In o (sel acc)).
+    { unfold sel. apply filter_In. split; [apply nodup_In; eapply wanted_is_op; exact Hw|].
+      rewrite Em, Hw. reflexivity. }
+    rewrite Hs in Hin. destruct Hin.
+  Qed.
+
+  Lemma closed_sel_nil acc : closed acc -> sel acc = [].
+  Proof.
+    intros Hc. unfold sel. destruct (filter _ _) as [|x l] eqn:E; [reflexivity|exfalso].
+    assert (Hx : In x (x :: l)) by (left; reflexivity). rewrite <- E in Hx.
+    apply filter_In in Hx. destruct Hx as [_ Hx]. apply andb_true_iff in Hx. destruct Hx as [H1 H2].
+    apply negb_true_iff in H1. apply mem_false in H1. apply H1. apply Hc. exact H2.
+  Qed.
+
+  Lemma round_closed_id acc : closed acc -> round acc = acc.
+  Proof.
+    intros Hc. unfold round, needed_round. fold (sel acc). rewrite (closed_sel_nil acc Hc). apply app_nil_r.
+  Qed.
+
+  Lemma iter_closed_id : forall k acc, closed acc -> iter k round acc = acc.
+  Proof.
+    induction k as [|k IH]; intros acc Hc; cbn [iter]; [reflexivity|].
+    rewrite (round_closed_id acc Hc). apply IH. exact Hc.
+  Qed.
+
+  Lemma NoDup_app_disj (a b : list id) :
+    NoDup a -> NoDup b -> (forall x, In x a -> ~ In x b) -> NoDup (a ++ b).
+  Proof.
+    induction a as [|x a IH]; intros Ha Hb Hd; cbn [app]; [exact Hb|].
+    inversion Ha as [|? ? Hx Ha']; subst. constructor.
+    - intros Hin. apply in_app_or in Hin. destruct Hin as [Hin|Hin]; [contradiction|].
+      exact (Hd x (or_introl eq_refl) Hin).
+    - apply IH; [exact Ha'|exact Hb|]. intros y Hy. apply Hd. right. exact Hy.
+  Qed.
+
+  Lemma round_inv acc :
+    NoDup acc -> incl acc (op_ids g) -> NoDup (round acc) /\ incl (round acc) (op_ids g).
+  Proof.
+    intros Hnd Hi. unfold round, needed_round. fold (sel acc). split.
+    - apply NoDup_app_disj; [exact Hnd|unfold sel; apply NoDup_filter; apply NoDup_nodup|].
+      intros x Hx Hs. unfold sel in Hs. apply filter_In in Hs. destruct Hs as [_ Hs].
+      apply andb_true_iff in Hs. destruct Hs as [Hs _]. apply negb_true_iff in Hs. apply mem_false in Hs. contradiction.
+    - intros x Hx. apply in_app_or in Hx. destruct Hx as [Hx|Hx]; [apply Hi; exact Hx|].
+      unfold sel in Hx. apply filter_In in Hx. destruct Hx as [Hx _]. apply nodup_In in Hx. exact Hx.
+  Qed.
+
+  Lemma iter_count : forall k acc,
+    NoDup acc -> incl acc (op_ids g) ->
+    NoDup (iter k round acc) /\ incl (iter k round acc) (op_ids g) /\
+    (closed (iter k round acc) \/ (length (iter k round acc) >= length acc + k)%nat).
+  Proof.
+    induction k as [|k IH]; intros acc Hnd Hi; cbn [iter].
+    - split; [exact Hnd|]. split; [exact Hi|]. right. lia.
+    - destruct (round_inv acc Hnd Hi) as [Hnd' Hi'].
+      destruct (sel acc) as [|x l] eqn:Es.
+      + pose proof (sel_nil_closed acc Es) as Hc.
+        rewrite (round_closed_id acc Hc), (iter_closed_id k acc Hc).
+        split; [exact Hnd|]. split; [exact Hi|]. left. exact Hc.
+      + destruct (IH (round acc) Hnd' Hi') as [H1 [H2 H3]]. split; [exact H1|]. split; [exact H2|].
+        destruct H3 as [H3|H3]; [left; exact H3|right].
+        assert (Hl : (length (round acc) >= length acc + 1)%nat).
+        { unfold round, needed_round. fold (sel acc). rewrite Es, app_length. cbn [length]. lia. }
+        lia.
+  Qed.
+
+  Lemma needed_set_closed : closed (needed_set g r0 outs).
+  Proof.
+    unfold needed_set. fold round.
+    destruct (iter_count (S (num_ops g)) [] (NoDup_nil _) (fun x (H : In x []) => match H with end)) as [Hnd [Hi [Hc|Hl]]]; [exact Hc|exfalso].
+    pose proof (NoDup_incl_length Hnd Hi) as Hle. unfold num_ops in *. cbn [length] in Hl. lia.
+  Qed.
+
+  Lemma needed_set_iff o : In o (needed_set g r0 outs) <-> needed g r0 outs o.
+  Proof.
+    split.
+    - unfold needed_set. fold round. apply iter_round_sound. intros p [].
+    - apply closed_needed. apply needed_set_closed.
+  Qed.
+End Needed.
+
+Lemma minimalb_iff g r0 outs plan :
+  minimalb g r0 outs plan = true <-> plan_minimal g r0 outs plan.
+Proof.
+  unfold minimalb, plan_minimal. rewrite forallb_forall.
+  split; intros H o Ho; [apply needed_set_iff; apply mem_In; apply H; exact Ho|].
+  apply mem_In. apply needed_set_iff. apply H. exact Ho.
 Qed.
 
 Lemma minimalb_sound g r0 outs plan :
   minimalb g r0 outs plan = true -> plan_minimal g r0 outs plan.
-Proof.
-  unfold minimalb, plan_minimal, needed_set. rewrite forallb_forall. intros H o Ho.
-  specialize (H o Ho). apply mem_In in H.
-  eapply needed_iter_sound; [| |exact H].
-  - intros v Hv. left. exact Hv.
-  - intros x [].
-Qed.
+Proof. apply minimalb_iff. Qed.
 
+(* the whole plan oracle is exact *)
+Theorem plan_okb_iff g am r0 outs plan :
+  plan_okb g am r0 outs plan = true <-> plan_good g am r0 outs plan.
+Proof.
+  unfold plan_okb, plan_good. rewrite !andb_true_iff, nodupb_iff, valid_fromb_plan_valid, completeb_iff, minimalb_iff. tauto.
+Qed.
 Theorem plan_okb_sound g am r0 outs plan :
   plan_okb g am r0 outs plan = true -> plan_good g am r0 outs plan.
 Proof.
@@ -142,48 +289,170 @@ Proof.
   rewrite !andb_true_iff, nodupb_iff, valid_fromb_plan_valid, completeb_iff. tauto.
 Qed.
 
-(* ---- plannability oracle: whatever it accepts is plannable ---- *)
-Lemma comp_step_sound g am r0 res :
-  (forall v, In v res -> computable g am r0 v) ->
-  forall v, In v (comp_step g am res) -> computable g am r0 v.
-Proof.
-  intros Hres v Hv. unfold comp_step in Hv. apply in_app_or in Hv. destruct Hv as [Hv|Hv]; [|apply Hres; exact Hv].
-  apply in_flat_map in Hv. destruct Hv as [o [_ Hv]].
-  destruct (get_op g o) as [n|] eqn:Eo; [|destruct Hv].
-  destruct (forallb (dep_okb g am res) (deps g n)) eqn:Ed; [|destruct Hv].
-  apply filter_In in Hv. destruct Hv as [Hvo Hs].
-  destruct (get_source g v) as [[o' n']|] eqn:Es; [|discriminate].
-  apply N.eqb_eq in Hs. subst o'.
-  pose proof (get_source_op g v o n' Es) as Hn'. rewrite Eo in Hn'. injection Hn' as <-.
-  eapply comp_op; [exact Es|]. intros d Hd.
-  pose proof (proj1 (forallb_forall _ _) Ed d Hd) as Hok. unfold dep_okb in Hok.
-  apply orb_true_iff in Hok. destruct Hok as [Hok|Hok].
-  - apply resolved_contains_iff in Hok. destruct Hok as [Hok|Hok].
-    + apply Hres. exact Hok.
-    + apply comp_avail. apply resolved_contains_iff. right. exact Hok.
-  - apply andb_true_iff in Hok. destruct Hok as [-> Hok]. apply comp_missing; [reflexivity|].
-    apply no_source_iff. exact Hok.
-Qed.
+(* ---- plannability oracle: exact ---- *)
+Section Comp.
+  Variable g : graph.
+  Variable am : bool.
+  Variable r0 : list id.
+  Hypothesis Hwf : wf_graph g.
 
-Lemma iter_comp_sound g am r0 : forall k res,
-  (forall v, In v res -> computable g am r0 v) ->
-  forall v, In v (iter k (comp_step g am) res) -> computable g am r0 v.
+  Let round := comp_round g am r0.
+  Let sel (fired : list id) :=
+    filter (fun o => negb (mem o fired) && can_fire g am r0 fired o) (nodup N.eq_dec (op_ids g)).
+
+  Lemma dep_okb_computable res d :
+    (forall v, In v res -> computable g am r0 v) -> dep_okb g am res d = true -> computable g am r0 d.
+  Proof.
+    intros Hres Hok. unfold dep_okb in Hok. apply orb_true_iff in Hok. destruct Hok as [Hok|Hok].
+    - apply resolved_contains_iff in Hok. destruct Hok as [Hok|Hok]; [apply Hres; exact Hok|].
+      apply comp_avail. apply resolved_contains_iff. right. exact Hok.
+    - apply andb_true_iff in Hok. destruct Hok as [-> Hok]. apply comp_missing; [reflexivity|].
+      apply no_source_iff. exact Hok.
+  Qed.
+
+  Definition fired_ok (fired : list id) : Prop := forall v, In v (res_of g r0 fired) -> computable g am r0 v.
+
+  Lemma fired_outs_In o v : In v (fired_outs g o) <-> exists n, get_source g v = Some (o, n) /\ In v (op_outs n).
+  Proof.
+    unfold fired_outs. destruct (get_op g o) as [n|] eqn:En.
+    - rewrite filter_In, sourced_iff. split.
+      + intros [Hv [n' Hs]]. exists n'. split; [exact Hs|].
+        pose proof (get_source_op g v o n' Hs) as Hn'. rewrite En in Hn'. injection Hn' as <-. exact Hv.
+      + intros [n' [Hs Hv]]. pose proof (get_source_op g v o n' Hs) as Hn'. rewrite En in Hn'. injection Hn' as <-.
+        split; [exact Hv|exists n; exact Hs].
+    - split; [intros []|]. intros [n' [Hs _]]. pose proof (get_source_op g v o n' Hs). congruence.
+  Qed.
+
+  Lemma round_fired_ok fired : fired_ok fired -> fired_ok (round fired).
+  Proof.
+    intros Hok v Hv. unfold res_of in Hv. apply in_app_or in Hv. destruct Hv as [Hv|Hv].
+    - apply in_flat_map in Hv. destruct Hv as [o [Ho Hvo]].
+      unfold round, comp_round in Ho. apply in_app_or in Ho. destruct Ho as [Ho|Ho].
+      + apply Hok. unfold res_of. apply in_or_app. left. apply in_flat_map. exists o. split; assumption.
+      + apply filter_In in Ho. destruct Ho as [_ Ho]. apply andb_true_iff in Ho. destruct Ho as [_ Ho].
+        unfold can_fire in Ho. apply fired_outs_In in Hvo. destruct Hvo as [n [Hs Hvn]].
+        rewrite (get_source_op g v o n Hs) in Ho.
+        eapply comp_op; [exact Hs|]. intros d Hd. eapply dep_okb_computable; [exact Hok|].
+        exact (proj1 (forallb_forall _ _) Ho d Hd).
+    - apply comp_avail. apply resolved_contains_iff. left. exact Hv.
+  Qed.
+
+  Lemma iter_fired_ok : forall k fired, fired_ok fired -> fired_ok (iter k round fired).
+  Proof.
+    induction k as [|k IH]; intros fired Hok; cbn [iter]; [exact Hok|]. apply IH. apply round_fired_ok. exact Hok.
+  Qed.
+
+  Lemma fired_ok_nil : fired_ok [].
+  Proof. intros v Hv. cbn in Hv. apply comp_avail. apply resolved_contains_iff. left. exact Hv. Qed.
+
+  Definition cclosed (fired : list id) : Prop := forall o, can_fire g am r0 fired o = true -> In o fired.
+
+  Lemma csel_nil_closed fired : sel fired = [] -> cclosed fired.
+  Proof.
+    intros Hs o Hc. destruct (mem o fired) eqn:Em; [apply mem_In; exact Em|exfalso].
+    assert (Hin : In o (sel fired)).
+    { unfold sel. apply filter_In. split.
+      - apply nodup_In. unfold can_fire in Hc. destruct (get_op g o) as [n|] eqn:En; [|discriminate].
+        eapply get_op_in_op_ids; exact En.
+      - rewrite Em, Hc. reflexivity. }
+    rewrite Hs in Hin. destruct Hin.
+  Qed.
+
+  Lemma cclosed_sel_nil fired : cclosed fired -> sel fired = [].
+  Proof.
+    intros Hc. unfold sel. destruct (filter _ _) as [|x l] eqn:E; [reflexivity|exfalso].
+    assert (Hx : In x (x :: l)) by (left; reflexivity). rewrite <- E in Hx.
+    apply filter_In in Hx. destruct Hx as [_ Hx]. apply andb_true_iff in Hx. destruct Hx as [H1 H2].
+    apply negb_true_iff in H1. apply mem_false in H1. apply H1. apply Hc. exact H2.
+  Qed.
+
+  Lemma cround_closed_id fired : cclosed fired -> round fired = fired.
+  Proof.
+    intros Hc. unfold round, comp_round. fold (sel fired). rewrite (cclosed_sel_nil fired Hc). apply app_nil_r.
+  Qed.
+
+  Lemma citer_closed_id : forall k fired, cclosed fired -> iter k round fired = fired.
+  Proof.
+    induction k as [|k IH]; intros fired Hc; cbn [iter]; [reflexivity|].
+    rewrite (cround_closed_id fired Hc). apply IH. exact Hc.
+  Qed.
+
+  Lemma cround_inv fired :
+    NoDup fired -> incl fired (op_ids g) -> NoDup (round fired) /\ incl (round fired) (op_ids g).
+  Proof.
+    intros Hnd Hi. unfold round, comp_round. fold (sel fired). split.
+    - apply NoDup_app_disj; [exact Hnd|unfold sel; apply NoDup_filter; apply NoDup_nodup|].
+      intros x Hx Hs. unfold sel in Hs. apply filter_In in Hs. destruct Hs as [_ Hs].
+      apply andb_true_iff in Hs. destruct Hs as [Hs _]. apply negb_true_iff in Hs. apply mem_false in Hs. contradiction.
+    - intros x Hx. apply in_app_or in Hx. destruct Hx as [Hx|Hx]; [apply Hi; exact Hx|].
+      unfold sel in Hx. apply filter_In in Hx. destruct Hx as [Hx _]. apply nodup_In in Hx. exact Hx.
+  Qed.
+
+  Lemma citer_count : forall k fired,
+    NoDup fired -> incl fired (op_ids g) ->
+    NoDup (iter k round fired) /\ incl (iter k round fired) (op_ids g) /\
+    (cclosed (iter k round fired) \/ (length (iter k round fired) >= length fired + k)%nat).
+  Proof.
+    induction k as [|k IH]; intros fired Hnd Hi; cbn [iter].
+    - split; [exact Hnd|]. split; [exact Hi|]. right. lia.
+    - destruct (cround_inv fired Hnd Hi) as [Hnd' Hi'].
+      destruct (sel fired) as [|x l] eqn:Es.
+      + pose proof (csel_nil_closed fired Es) as Hc.
+        rewrite (cround_closed_id fired Hc), (citer_closed_id k fired Hc).
+        split; [exact Hnd|]. split; [exact Hi|]. left. exact Hc.
+      + destruct (IH (round fired) Hnd' Hi') as [H1 [H2 H3]]. split; [exact H1|]. split; [exact H2|].
+        destruct H3 as [H3|H3]; [left; exact H3|right].
+        assert (Hl : (length (round fired) >= length fired + 1)%nat).
+        { unfold round, comp_round. fold (sel fired). rewrite Es, app_length. cbn [length]. lia. }
+        lia.
+  Qed.
+
+  Let final := iter (S (num_ops g)) round [].
+
+  Lemma final_closed : cclosed final.
+  Proof.
+    unfold final.
+    destruct (citer_count (S (num_ops g)) [] (NoDup_nil _) (fun x (H : In x []) => match H with end)) as [Hnd [Hi [Hc|Hl]]]; [exact Hc|exfalso].
+    pose proof (NoDup_incl_length Hnd Hi) as Hle. unfold num_ops in *. cbn [length] in Hl. lia.
+  Qed.
+
+  Lemma computable_in_set v : computable g am r0 v -> dep_okb g am (computable_set g am r0) v = true.
+  Proof.
+    unfold computable_set. fold round. fold final.
+    induction 1 as [v Hv|v Ham Hs|v o n Hs Hd IH]; unfold dep_okb.
+    - apply resolved_contains_iff in Hv. apply orb_true_iff. left. apply resolved_contains_iff.
+      destruct Hv as [Hv|Hv]; [left; unfold res_of; apply in_or_app; right; exact Hv|right; exact Hv].
+    - apply orb_true_iff. right. rewrite Ham. apply no_source_iff in Hs. rewrite Hs. reflexivity.
+    - apply orb_true_iff. left. apply resolved_contains_iff. left.
+      assert (Hf : In o final).
+      { apply final_closed. unfold can_fire. rewrite (get_source_op g v o n Hs).
+        apply forallb_forall. exact IH. }
+      unfold res_of. apply in_or_app. left. apply in_flat_map. exists o. split; [exact Hf|].
+      apply fired_outs_In. exists n. split; [exact Hs|eapply Hwf; exact Hs].
+  Qed.
+
+  Lemma in_set_computable v : dep_okb g am (computable_set g am r0) v = true -> computable g am r0 v.
+  Proof.
+    apply dep_okb_computable. unfold computable_set. apply iter_fired_ok. apply fired_ok_nil.
+  Qed.
+End Comp.
+
+Theorem request_plannableb_iff g ins outs am ca :
+  wf_graph g -> (request_plannableb g ins outs am ca = true <-> request_plannable g ins outs am ca).
 Proof.
-  induction k as [|k IH]; intros res Hres v Hv; cbn [iter] in Hv; [apply Hres; exact Hv|].
-  eapply IH; [|exact Hv]. apply comp_step_sound. exact Hres.
+  intros Hwf. unfold request_plannableb, request_plannable.
+  rewrite !andb_true_iff, !nodupb_iff. split.
+  - intros [[[[H1 H2] H3] H4] H5]. repeat split; try assumption.
+    intros v Hv. apply in_set_computable. exact (proj1 (forallb_forall _ _) H5 v Hv).
+  - intros [H1 [H2 [H3 [H4 H5]]]]. repeat split; try assumption.
+    apply forallb_forall. intros v Hv. apply computable_in_set; [exact Hwf|]. apply H5. exact Hv.
 Qed.
 
 Theorem request_plannableb_sound g ins outs am ca :
   request_plannableb g ins outs am ca = true -> request_plannable g ins outs am ca.
 Proof.
-  unfold request_plannableb. rewrite !andb_true_iff. intros [[[[H1 H2] H3] H4] H5].
-  split; [apply nodupb_iff; exact H1|]. split; [exact H2|]. split; [apply nodupb_iff; exact H3|].
-  split; [exact H4|]. intros v Hv.
-  pose proof (proj1 (forallb_forall _ _) H5 v Hv) as Hok. unfold dep_okb in Hok.
-  apply orb_true_iff in Hok. destruct Hok as [Hok|Hok].
-  - apply resolved_contains_iff in Hok. destruct Hok as [Hok|Hok].
-    + eapply iter_comp_sound; [|exact Hok]. intros x Hx. apply comp_avail. apply resolved_contains_iff. left. exact Hx.
-    + apply comp_avail. apply resolved_contains_iff. right. exact Hok.
-  - apply andb_true_iff in Hok. destruct Hok as [-> Hok]. apply comp_missing; [reflexivity|].
-    apply no_source_iff. exact Hok.
+  unfold request_plannableb, request_plannable.
+  rewrite !andb_true_iff, !nodupb_iff.
+  intros [[[[H1 H2] H3] H4] H5]. repeat split; try assumption.
+  intros v Hv. apply in_set_computable. exact (proj1 (forallb_forall _ _) H5 v Hv).
 Qed.
